@@ -806,6 +806,50 @@ def run(report, p):
     from .common import shadowed_global_rule
 
     shadowed_global_rule(report, p, 'R3.17')
+    from .common import zero_division_rule
+
+    zero_division_rule(report, p, 'R3.19')
+
+    # ------------------------------------------------------------------ R3.18
+    r18 = report.rule(
+        "R3.18",
+        "a per-file verdict is not overwritten by the next file: inside a loop over files the success / failure of sealing one file is consumed in that iteration "
+        "(counted, or combined with the value so far) - a plain assignment `verdict = <this file's result>` that is only read after the loop keeps the LAST file's "
+        "verdict, so a mismatch in any other file is logged but never reaches the exit code",
+        2,
+    )
+    seal_q = "ascmhl.commands.seal_file_path"
+    n18 = 0
+    for fq, f in sorted(p.funcs.items()):
+        if not f.module.name.endswith("commands"):
+            continue
+        for lp in [n for n in walk_no_nested(f.node) if isinstance(n, (ast.For, ast.While))]:
+            seals_in = [c for c, tg in p.calls[fq] if (seal_q in tg or any(t.endswith("append_file_hash") or t.endswith("append_multiple_format_file_hashes") for t in tg)) and _inside(c, lp)]
+            if not seals_in:
+                continue
+            n18 += 1
+            r18.instance(f, lp, f"{f.name}: loop sealing files (line {lp.lineno})")
+            # verdict-carrying names: assigned from the seal result (directly or through `.success` / a subscript of it)
+            result_names = set()
+            for a in [n for n in ast.walk(lp) if isinstance(n, ast.Assign) and len(n.targets) == 1 and isinstance(n.targets[0], ast.Name)]:
+                if any(c is x for c in seals_in for x in ast.walk(a.value)):
+                    result_names.add(a.targets[0].id)
+            changed = True
+            while changed:
+                changed = False
+                for a in [n for n in ast.walk(lp) if isinstance(n, ast.Assign) and len(n.targets) == 1 and isinstance(n.targets[0], ast.Name)]:
+                    if a.targets[0].id not in result_names and any(isinstance(x, ast.Name) and x.id in result_names for x in ast.walk(a.value)):
+                        result_names.add(a.targets[0].id)
+                        changed = True
+            for nm in sorted(result_names):
+                loads_in = [n for n in ast.walk(lp) if isinstance(n, ast.Name) and n.id == nm and isinstance(n.ctx, ast.Load)]
+                loads_after = [n for n in walk_no_nested(f.node) if isinstance(n, ast.Name) and n.id == nm and isinstance(n.ctx, ast.Load) and not _inside(n, lp) and n.lineno > lp.lineno]
+                if not loads_in and loads_after:
+                    asg = next(a for a in ast.walk(lp) if isinstance(a, ast.Assign) and len(a.targets) == 1 and isinstance(a.targets[0], ast.Name) and a.targets[0].id == nm)
+                    r18.check(False, f, asg, f"`{norm(asg)[:70]}` overwrites `{nm}` for every file of the loop and `{nm}` is read only after the loop (line {loads_after[0].lineno}): only the LAST file decides - `create ROOT -sf FOLDER` exits 0 although an altered recorded file in that folder was found (the mismatch is logged, the failure never counted) unless it happens to be the last one traversed", construct=f"{f.name}: per-file verdict `{nm}` overwritten in the loop")
+    if n18 < 2:
+        raise AnalysisError(f"only {n18} loop(s) sealing files found in the commands module")
+    r18.check(True, None, None, "")
 
     # ---- rules shared with other properties (same mechanism, same rule, reported under every property it can break)
     include_rules(report, p, 'c12', ['R12.13'], 'an ignored path is neither new nor missing: the traversal and the missing-file filter must agree on the string they match')
